@@ -238,7 +238,7 @@ def pick_fault(r: Rng, ref_res: dict, kinds: typing.Sequence[str]) -> typing.Opt
         n = len(wpf)
         if n == 0:
             return None
-        return {"kind": kind, "at": biased(n)}
+        return {"kind": kind, "at": biased(n), "how": r.choice(["exit1", "killed"])}
     raise ValueError(kind)
 
 
